@@ -167,6 +167,22 @@ theorem predict_all_entry {ρ} (ests : List (ρ → Rat)) (X : List ρ) (i j : N
     ((predictAll ests X)[i]?.bind (·[j]?)) = some (ests[j] X[i]) := by
   simp [predictAll, hi, hj]
 
+/-! ### the tie to the functions the model transcribes -/
+
+/-- the functions the hand-written model transcribes have, in the current source, the control skeleton (tests, loop
+headers, kinds of statements and the names they bind) they had when the model was written and validated: no branch,
+loop, early exit or rebinding has been added that the model does not describe -/
+theorem modelled_functions_have_the_transcribed_shape :
+    MlVerif.Gen.C17.shapeFit =
+      "self.estimators_=;estimators=;loop=;verbose=;def _fit_piecewise_estimator{new_size=;rnd=;Xr=;yr=;sr=;return};self.estimators_=;return" ∧
+    MlVerif.Gen.C17.shapePredictAll =
+      "container=;for((i,est) in enumerate(self.estimators_)){pred=;container[]=};return" ∧
+    MlVerif.Gen.C17.shapePredict =
+      "preds=;return" ∧
+    MlVerif.Gen.C17.shapePredictSorted =
+      "preds=;for(i in range(preds.shape[0])){preds[]=};return" :=
+  ⟨rfl, rfl, rfl, rfl⟩
+
 /-! ### non-vacuity: concrete instances satisfying the hypotheses -/
 example : (1 : Int) ≤ 1 ∧ randLo 1 1 < randHi 1 1 := by decide +kernel
 example : randSize 5 (3/4) = 4 := by decide +kernel
